@@ -575,13 +575,19 @@ Definition filter_atom : parser (option filter) :=
                 if is_nil k then PFail
                 else let t := trim_stars k in POk (if is_nil t then None else Some (FKw KWild t)) r).
 
-Definition combine2 (mk : list filter -> filter) (a b : option filter) : option filter :=
+(** [None] stands for the filter that selects every line ([*], [""]): the identity of AND,
+    absorbing for OR (and_filters / or_filters, after fix 291b1f9) *)
+Definition combine2 (is_or : bool) (a b : option filter) : option filter :=
   match a, b with
-  | Some l, Some r => Some (mk [l; r])
-  | Some l, None => Some l
-  | None, Some r => Some r
+  | Some l, Some r => Some (if is_or then FOr [l; r] else FAnd [l; r])
+  | Some l, None => if is_or then None else Some l
+  | None, Some r => if is_or then None else Some r
   | None, None => None
   end.
+
+(** [filter_not]: the negation of "every line" selects no line *)
+Definition not_filter (a : option filter) : option filter :=
+  Some (FNot (match a with Some g => g | None => FAnd [] end)).
 
 Fixpoint p_filter (fuel : nat) : parser (option filter) :=
   match fuel with
@@ -597,7 +603,7 @@ Fixpoint p_filter (fuel : nat) : parser (option filter) :=
                  (* filter_not *)
                  match (match strip_prefix (lit "NOT") s with
                         | Some r => match ms1 r with
-                                    | POk _ r' => pmap (option_map FNot) (low k') r'
+                                    | POk _ r' => pmap not_filter (low k') r'
                                     | _ => PFail
                                     end
                         | None => PFail
@@ -617,15 +623,15 @@ Fixpoint p_filter (fuel : nat) : parser (option filter) :=
                  end
            end) (S f) in
       (* the left operand once, then an optional operator part (after the fix of the exponential re-parsing) *)
-      let then_opt (word : String.string) (sub : parser (option filter)) (mk : list filter -> filter) : parser (option filter) :=
+      let then_opt (word : String.string) (sub : parser (option filter)) (mk : bool) : parser (option filter) :=
         fun s => LET a, r <- sub s IN
                  match (LET _u, r1 <- ms1 r IN LET _v, r2 <- ptag word r1 IN LET _w, r3 <- ms1 r2 IN sub r3) with
                  | POk b r4 => POk (combine2 mk a b) r4
                  | PFail => POk a r
                  | PFatal => PFatal
                  end in
-      let mid : parser (option filter) := then_opt "AND" low FAnd in
-      then_opt "OR" mid FOr
+      let mid : parser (option filter) := then_opt "AND" low false in
+      then_opt "OR" mid true
   end.
 
 Definition high_filter : parser (option filter) := fun s => p_filter (S (length s)) s.
